@@ -268,6 +268,9 @@ func zero(t types.Type) value {
 
 // slice returns x[lo:hi:max].  Any of lo, hi and max may be nil.
 func slice(x, lo, hi, max value) value {
+	if ss, ok := x.(symSlice); ok {
+		return ss.reslice(lo, hi, max)
+	}
 	var Len, Cap int
 	switch x := x.(type) {
 	case string:
@@ -1027,6 +1030,8 @@ func callBuiltin(caller *frame, callpos token.Pos, fn *ssa.Builtin, args []value
 			return len(x)
 		case *hashmap:
 			return x.len()
+		case symSlice:
+			return x.ln
 		case *mchan:
 			if x == nil {
 				return 0
@@ -1044,6 +1049,8 @@ func callBuiltin(caller *frame, callpos token.Pos, fn *ssa.Builtin, args []value
 			return cap((*x).(array))
 		case []value:
 			return cap(x)
+		case symSlice:
+			return x.capv
 		case *mchan:
 			if x == nil {
 				return 0
